@@ -339,6 +339,7 @@ func guardStr(f func() string) (s string, p any) {
 }
 
 func propC04(cx *sim.Ctx) {
+	sim.Declare([]string{"stream_flushed_2plus_times", "flush_right_before_comma", "flush_right_before_close", "flush_right_before_newline_overwrite", "flush_between_key_and_value", "deep_indented_stream", "baseline_text_judged"}, []string{"oj_writer_io_error", "pretty_writer_io_error"})
 	c := drawWriteCase(cx.T)
 	cx.Render(c.render)
 	cx.Key(fmt.Sprintf("%#v", c.Value), c.UseGen, fmt.Sprint(c.Opt.Indent, c.Opt.Tab, c.Opt.Sort, c.Opt.OmitNil, c.Opt.OmitEmpty, c.Opt.HTMLUnsafe, c.Opt.InitSize), c.Limit, c.Width, c.MaxDepth, c.Align, c.FailCall)
